@@ -7,6 +7,7 @@ import (
 	"errors"
 	"fmt"
 	"reflect"
+	"sync/atomic"
 	"time"
 
 	"github.com/NethermindEth/juno/blockchain"
@@ -49,6 +50,7 @@ type outcome struct {
 	hang       string
 	panicMsg   string
 	drainLost  bool
+	skipped    bool
 	wall       time.Duration
 	hits       map[string]int
 	final      *blockchain.Blockchain
@@ -112,8 +114,21 @@ func (l *syncListener) OnReorg(n uint64) {
 
 const quiescentAfter = 150 // honest, undelayed latest answers without any commit in between
 
+// hangs counts cases that ran into the wall-clock deadline; after a few of them the remaining
+// cases are skipped (a broken synchroniser would otherwise cost a minute per case).
+var hangs atomic.Int32
+
 func runScenario(sc Scenario) (out *outcome) {
 	out = &outcome{sc: sc, persisted: map[string]int{}}
+	if hangs.Load() >= 3 {
+		out.skipped = true
+		return out
+	}
+	defer func() {
+		if out.hang != "" {
+			hangs.Add(1)
+		}
+	}()
 	t0 := time.Now()
 	defer func() { out.wall = time.Since(t0) }()
 	chains, err := buildChains(sc)
@@ -156,7 +171,7 @@ func runScenario(sc Scenario) (out *outcome) {
 	rec.mu.Unlock()
 
 	src := &source{rec: rec, chains: chains, trig: nil, faults: sc.Faults, seed: sc.Seed ^ 0xC06,
-		epoch: sc.StartEpoch, asked: map[string]int{}, faulted: map[string]int{}, hits: map[string]int{},
+		epoch: sc.StartEpoch, asked: map[string]int{}, faulted: map[string]int{}, hits: map[string]int{}, servedHeights: map[uint64]bool{},
 		notFound: 150 * time.Microsecond}
 	// triggers are indexed by epoch
 	src.trig = make([]Trigger, 0, len(chains))
@@ -211,7 +226,7 @@ func runScenario(sc Scenario) (out *outcome) {
 	}()
 
 	final := chains[len(chains)-1]
-	deadline := time.Now().Add(60 * time.Second)
+	deadline := time.Now().Add(40 * time.Second)
 	tick := time.NewTicker(200 * time.Microsecond)
 	lastCommit := -1
 loop:
@@ -241,7 +256,7 @@ loop:
 			break
 		}
 		if time.Now().After(deadline) {
-			out.hang = "no convergence and no quiescence within 60 s"
+			out.hang = "no convergence and no quiescence within 40 s"
 			break
 		}
 	}
@@ -276,6 +291,9 @@ loop:
 
 	src.mu.Lock()
 	out.hits = src.hits
+	if src.maxInflight > 1 {
+		out.hits["parallel-fetchers(catch-up mode)"]++
+	}
 	for _, h := range src.handed {
 		select {
 		case e := <-h.ch:
